@@ -251,6 +251,32 @@ def _pick(check: Check):
         n.ast.test.comparators[0]) == '0':
       zero_ok = any(isinstance(s, ast.Return) and ff.param_of(s.value) == bs for s in n.ast.body)
   check.ob('R-BUCKET', fi, 'remainder == 0 -> batch_size', rem_ok and zero_ok, 'a dataset that divides evenly needs no padding')
+  # bucket sizes are integers obtained by exact halving: no floating point on the way (log2 / true division round, and the
+  # truncated result is one bucket off for remainders that are exactly batch_size / 2**k)
+  for _, c in ff.calls():
+    p_ = ff.ext(c.func) or ''
+    if p_ in ('math.log2', 'math.log', 'numpy.log2', 'numpy.log', 'math.sqrt', 'math.pow', 'builtins.float', 'math.floor', 'math.ceil', 'builtins.round'):
+      check.ob('R-BUCKET.float', fi, txt(c)[:60], False,
+               'the bucket is computed through floating point: for some (batch_size, remainder) pairs the rounded result is off by one '
+               'halving, so the final batch is twice as large as the bucket rule says (or too small to hold the remainder)', node=c, exact=True)
+  for nd in ff.cfg.nodes:
+    if nd.ast is not None:
+      for x in nd.walk():
+        if isinstance(x, ast.BinOp) and isinstance(x.op, ast.Div):
+          check.ob('R-BUCKET.float', fi, txt(x)[:60], False, 'true division in the integer bucket computation', node=x, exact=True)
+  # the halves are floor halves of the batch size itself: batch_size // 2, then low // 2
+  halves = [x for nd in ff.cfg.nodes if nd.ast is not None for x in nd.walk() if isinstance(x, ast.BinOp) and isinstance(x.op, (ast.FloorDiv, ast.RShift))]
+  seen_h = set()
+  for x in halves:
+    if id(x) in seen_h:
+      continue
+    seen_h.add(id(x))
+    by_two = isinstance(x.right, ast.Constant) and x.right.value == (2 if isinstance(x.op, ast.FloorDiv) else 1)
+    plain = isinstance(x.left, ast.Name)
+    if by_two:
+      check.ob('R-BUCKET.half', fi, txt(x), plain,
+               'each bucket is the floor half of the previous one (batch_size // 2, low // 2): a rounded-up half makes the smallest bucket '
+               'for an odd batch size larger than the rule allows', node=x)
   # halving search: if the code has the documented shape, its operators must be the right ones; another shape is
   # left undecided (integer arithmetic is outside this family) rather than reported
   for n in ff.cfg.nodes:
